@@ -187,4 +187,64 @@ CLAIMS = {
                      'stores to _data, dominance-based local discharge, '
                      'representation-read taint, sibling comparison',
     },
+    'C05': {
+        'text': "Decides the invariant-maintenance obligations every mutator must meet, for all inputs and histories: replacing the ids of an axis is followed on every path by a rebuild of that axis' lookup (CFG must-pass-through), and a non-None lookup passed on belongs to the axis of its slot; ids/metadata/index fields only ever receive values of their own axis; the filter kernel receives ids, metadata, lookup and numeric axis of one axis, selects rows, ids and metadata with one mask and performs every fallible lookup before compacting in place; errcheck follows the stores of filter/update_ids and guards the constructor; raw metadata is cast; no in-place write ever reaches an id array or lookup dict; every Table method outside the enumerated mutators is observably pure, so all accessors read the one matrix; structure-sensitive accessors (nonzero, min/max, nnz) see a canonical matrix; the err tests and accessors pair shape[0] with observations and shape[1] with samples. Index arithmetic inside _remove_rows_csr and scipy conversions are not decided.",
+        'note': 'Trusted: scipy/numpy semantics table in DESIGN.md section 9; the .pyx sources are analysed through the de-cythoniser (whether the prebuilt .so matches them is not visible to a source analysis).',
+        'technique': 'static analysis: CFG must-pass-through (reindex, errcheck, cast), axis-role abstract interpretation (each axis-parametrised function interpreted once per concrete axis / mode value; alarms only at sinks whose participants are all resolved), effect/purity summaries, canonical-state typestate',
+    },
+    'C06': {
+        'text': "Decides that reordering/transposing/copying/renaming keep values with ids structurally: in sort_order the matrix, ids and metadata placed in the reordered axis' slots all derive from `order` (matrix and metadata through the same position array) while the other axis passes through; every constructor call places each axis-typed argument in the slot of its axis, flipped exactly when the matrix is transposed (transpose, sort_order, copy, align_to); sort forwards its axis; update_ids writes each new id at the position of the old one into an array wide enough, re-indexes and keeps unmapped ids; copy copies matrix, ids, metadata and type. Natsort order, scipy fancy indexing and injectivity of user renamings are not decided.",
+        'note': 'Trusted: scipy fancy indexing / transpose semantics.',
+        'technique': 'static analysis: def-use dependence on the permutation, axis-role abstract interpretation (each axis-parametrised function interpreted once per concrete axis / mode value; alarms only at sinks whose participants are all resolved), CFG must-pass-through',
+    },
+    'C07': {
+        'text': 'Decides the effect/aliasing clauses almost entirely: each of the methods with an inplace flag binds one name to self-or-copy, performs every observable write, mutating call and in-place kernel call through that name, returns it on every path and has no second writing branch on inplace (or forwards inplace to such a method) - hence in-place and non-in-place follow one code path; every new-table operation and every accessor has only representation-only write effects on the receiver and on argument tables (transitively through method calls); kernel arrays are rooted at the bound name or a fresh table; the matrix of every newly constructed table is fresh at the call site or copied by the constructor, metadata mappings are rebuilt by the constructor, copy() copies ids/metadata/type; no in-place element write reaches an id array or lookup dict anywhere in the package. User callbacks that mutate their arguments are outside the analysis.',
+        'note': 'Trusted: scipy may-alias (tocsr/tocsc/asformat) vs allocating (copy/astype/transpose(copy=True)/fancy index) operations; numpy slicing returns views.',
+        'technique': 'static analysis: may-alias/ownership analysis and write-effect summaries over all Table methods with transitive call resolution',
+    },
+    'C08': {
+        'text': "Decides: Table.filter hands the kernel ids, metadata, lookup and numeric axis of one and the same axis and reinstalls results in that axis' fields; both selection paths XOR with invert; the predicate is called exactly once per id in order with its own id and metadata; one mask selects rows, ids, metadata; unknown ids fail before anything is compacted; because the predicate kernel rebuilds vectors by one ascending scan over the indices, filter sorts the indices on every path that reaches it with a csr/csc matrix; remove_empty's emptiness test is sign-insensitive; head keeps the leading n observations and m samples and `biom head` passes its counts in that order; filter/remove_empty follow the single inplace-bound code path. The compaction arithmetic of _remove_rows_csr is not decided.",
+        'note': 'Trusted: scipy format conversion sorts indices; sort_indices preserves values.',
+        'technique': 'static analysis: axis-role abstract interpretation (each axis-parametrised function interpreted once per concrete axis / mode value; alarms only at sinks whose participants are all resolved), kernel AST rules on the de-cythonised .pyx, CFG dominance (sorted before kernel), emptiness-predicate classification',
+    },
+    'C09': {
+        'text': "Decides: the metadata-dropping fast path must be guarded by a condition on the metadata of every operand or on both merge functions being None (violated on this tree: recorded known finding D7); union/intersection select the matching id-order helper and other values raise; ids are looked up with the axis they belong to and vectors are indexed with positions from the same table's lookup of the complementary axis (owner check); both result constructions place values in the slots of their axis; the fast path reads the eliminating nnz before taking COO arrays and remaps rows through observation ids, columns through sample ids; metadata functions get (receiver md, other md); shared cells are the sum. Totals and COO duplicate summation are delegated to scipy.",
+        'note': 'Trusted: scipy COO->CSR sums duplicates.',
+        'technique': 'static analysis: guard-dependence analysis, axis-role abstract interpretation (each axis-parametrised function interpreted once per concrete axis / mode value; alarms only at sinks whose participants are all resolved) with table-ownership tracking',
+    },
+    'C10': {
+        'text': "Decides: a DisjointIDError guarded by a test over every operand's concatenated-axis ids precedes the stacking; every table entering the stack is guarded equal to, or sorted into, the common other-axis order; hstack/vstack grow the dimension of the axis whose ids are concatenated, padding blocks have (observations, samples) shape, stacked matrices share orientation, and all four constructor calls place ids/metadata in the slots of their axis; metadata(i, axis) is asked for the other axis' ids; biom.concat normalises a single table like Table.concat. Zero padding values and totals are not decided.",
+        'note': 'Trusted: scipy hstack grows columns / vstack rows.',
+        'technique': 'static analysis: CFG dominance, axis-role abstract interpretation (each axis-parametrised function interpreted once per concrete axis / mode value; alarms only at sinks whose participants are all resolved), wrapper/sibling comparison',
+    },
+    'C11': {
+        'text': "Decides the structural half: in partition and collapse every constructor call places ids, metadata and lookups in the slots of their axis in both axis specialisations; the shared other-axis lookup passed by partition is that axis' lookup; vectors collected per group are assembled with the transpose flag that yields observations x samples (one-to-one mode) and the one-to-many accumulator is oriented/transposed per axis; collapse and partition have no observable write effect on the receiver; collapse checks the empty kind. Exact group membership, sums, division and label hashing are runtime arithmetic and are NOT decided.",
+        'note': 'Trusted: scipy constructors.',
+        'technique': 'static analysis: axis-role abstract interpretation (each axis-parametrised function interpreted once per concrete axis / mode value; alarms only at sinks whose participants are all resolved) (specialised on axis and one_to_many), effect summaries',
+    },
+    'C12': {
+        'text': "Decides: the per-vector kernel is handed the matrix view whose major axis is the axis the method operates along; it runs on a fresh copy's matrix; all randomness flows from the generator built from seed (no global RNG call; positive control embedded); with_replacement selects the kernel and n is passed through; post-kernel empty-vector filters run on the axis then its inverse (sum()>0 admissible: counts are non-negative by construction); ids are shuffled on a private copy; both kernels must guard the degenerate vector before drawing (violated for the with-replacement kernel: recorded known finding D14). The sampling walk, exact sums and unbiasedness are statistical/runtime and NOT decided.",
+        'note': 'Trusted: numpy Generator API. The .pyx is analysed as source.',
+        'technique': 'static analysis: axis-role abstract interpretation (each axis-parametrised function interpreted once per concrete axis / mode value; alarms only at sinks whose participants are all resolved) kernel sink, sibling-kernel guard comparison on the de-cythonised .pyx, RNG provenance rule, ownership analysis',
+    },
+    'C13': {
+        'text': "Decides: Table.transform hands _transform a matrix view, ids, metadata and numeric axis of one axis; the kernel writes back exactly the slice it read with that vector's id and metadata; the callback sees a canonical matrix (only non-zero entries) and zeros it produces are eliminated before the matrix is reinstalled; transform follows the single inplace-bound path and norm/rankdata/pa forward axis and inplace (and normalize-table forwards --axis); presence/absence is 1 exactly where value != 0. Numeric results of norm/rankdata are not decided.",
+        'note': 'Trusted: scipy csr/csc layout.',
+        'technique': 'static analysis: axis-role abstract interpretation (each axis-parametrised function interpreted once per concrete axis / mode value; alarms only at sinks whose participants are all resolved) kernel sink, kernel AST rule, effect summaries, canonical-state typestate, forwarding rules',
+    },
+    'C17': {
+        'text': 'Decides: every documented input form of _to_sparse dispatches to a defined converter with dtype (and shape) forwarded and unknown input raises the table error; every accepted form ends canonical (converter or constructor) which is what lets tables built from different forms compare equal; the constructor sizes converted input by (len(observation_ids), len(sample_ids)), casts to float, stores each argument in the field of its axis, validates by default on every path after the fields are installed, and the six structural kinds raise the table error by default; from_adjacency and parse_uc key rows by position in the list passed as observation ids and columns by position in the sample list; the checked metadata must be the supplied metadata (violated on the all-falsy path: recorded known findings D15a/b). Cross-form value equality and shape-inference heuristics are not decided.',
+        'note': 'Trusted: scipy constructors; python dict semantics.',
+        'technique': 'static analysis: dispatch-table rule, canonical-state typestate, CFG must-pass-through, axis-role abstract interpretation (each axis-parametrised function interpreted once per concrete axis / mode value; alarms only at sinks whose participants are all resolved), coordinate-provenance dataflow',
+    },
+    'C18': {
+        'text': "Decides: add_metadata / del_metadata / _cast_metadata / add_group_metadata write metadata fields only (never ids, lookups or matrix; no kernel; no other mutator); add_metadata updates only ids that exist on the given axis through their own mapping, builds new tuples per id of that axis in order and stores them in that axis' field, then re-casts on every path; del_metadata's only deletion is `del md[k]` for k in the requested keys on the requested axes; add-metadata parses each mapping file with its own header option and adds it on its own axis. The mapping-file row grammar (MetadataMap.from_file) is runtime text processing and is NOT decided.",
+        'note': 'Trusted: dict.update overwrite semantics.',
+        'technique': 'static analysis: write-effect summaries, axis-role abstract interpretation (each axis-parametrised function interpreted once per concrete axis / mode value; alarms only at sinks whose participants are all resolved), CFG must-pass-through, CLI pairing rule',
+    },
+    'C19': {
+        'text': 'Decides: the axis accessors and summaries return values of the axis asked for (sum maps sample->scipy axis 0, i.e. one value per column; min/max/nonzero_counts/reduce allocate per id of the axis and fill iterating the same axis); _axis_to_num is sample->1/observation->0; density divides the eliminating nnz by both axis lengths once each; min/max see a canonical matrix; to_dataframe labels rows with observation ids and columns with sample ids, metadata_to_dataframe labels rows with the ids of the axis iterated; table-ids, head and export-metadata pass their flags to the right axis; qualitative per-sample counts count non-zero entries. Every formatted figure of summarize-table, medians and means are not decided.',
+        'note': 'Trusted: scipy sum(axis) semantics; pandas DataFrame index/columns.',
+        'technique': 'static analysis: axis-role abstract interpretation (each axis-parametrised function interpreted once per concrete axis / mode value; alarms only at sinks whose participants are all resolved) with return-axis expectations, flag/axis forwarding rules',
+    },
 }
